@@ -876,8 +876,13 @@ class Geodesic(PointPair, Subspace):
             A `Geodesic` fixed by the given isometry.
 
     """
-        if reflection.dimension != 2:
-            raise GeometryError("Creating segment from reflection expects dimension 2, got dimension {}".format(reflection.dimension))
+        try:
+            dimension = reflection.dimension
+        except AttributeError:
+            # the reflection may be given as a plain matrix
+            dimension = np.array(reflection).shape[-1] - 1
+        if dimension != 2:
+            raise GeometryError("Creating segment from reflection expects dimension 2, got dimension {}".format(dimension))
 
         hyperplane = Hyperplane.from_reflection(reflection)
         pt1 = hyperplane.ideal_basis[..., 0, :]
@@ -1148,7 +1153,7 @@ class Hyperplane(Subspace):
         #numpy's eig expects a matrix operating on the left
         evals, evecs = np.linalg.eig(matrix)
 
-        dimension = reflection.dimension
+        dimension = matrix.shape[-1] - 1
 
         #we expect a reflection to have eigenvalues [-1, 1, ...]
         expected_evals = np.ones(dimension + 1)
